@@ -26,7 +26,7 @@ import sys
 LEAN_KEYWORDS = {"from", "at", "end", "open", "in", "do", "if", "then", "else", "let", "have", "show", "fun",
                  "match", "with", "where", "def", "theorem", "structure", "namespace", "section", "import",
                  "instance", "class", "mutual", "by", "local", "private", "protected", "return", "for", "unless",
-                 "break", "continue", "try", "catch", "finally", "mut", "type", "Type", "Prop", "Sort", "e", "fuel"}
+                 "break", "continue", "try", "catch", "finally", "mut", "type", "Type", "Prop", "Sort", "e", "fuel", "self"}
 
 
 class Unsupported(Exception):
@@ -93,10 +93,29 @@ CMPOPS = {ast.Lt: "pyLt", ast.LtE: "pyLe", ast.Gt: "pyGt", ast.GtE: "pyGe", ast.
 
 
 class FunctionTranslator:
-    def __init__(self, module, fn):
+    def __init__(self, module, fn, cls=None):
+        """`cls`: the ClassDef when `fn` is a method.  A method is translated like a function whose first parameter is the
+        object (the `.dict` of its attributes); `__init__` returns the object it has built."""
         self.m = module
         self.fn = fn
-        self.name = fn.name
+        self.cls = cls
+        self.name = fn.name if cls is None else "%s.%s" % (cls.name, fn.name)
+        self.is_init = cls is not None and fn.name == "__init__"
+        if cls is not None:
+            if fn.name.startswith("__") and fn.name != "__init__":
+                raise Unsupported("%s: special method" % self.name)
+            if not fn.args.args:
+                raise Unsupported("%s: method without self" % self.name)
+            self.self_name = fn.args.args[0].arg
+            for node in ast.walk(fn):
+                if isinstance(node, ast.Name) and node.id == self.self_name and isinstance(node.ctx, ast.Store):
+                    raise Unsupported("%s: the object parameter is rebound" % self.name)
+                if isinstance(node, ast.Attribute) and isinstance(node.ctx, (ast.Store, ast.Del)) and not self.is_init:
+                    raise Unsupported("%s: attribute assignment outside __init__ (hidden state)" % self.name)
+                if self.is_init and isinstance(node, ast.Return):
+                    raise Unsupported("%s: return inside __init__" % self.name)
+        else:
+            self.self_name = None
         self.counter = 0
         self.loop_counter = 0
         self.cont_counter = 0
@@ -311,6 +330,9 @@ class FunctionTranslator:
                     return True, "e.%s" % fld(node.id)
                 return False, "(getVar e.%s)" % fld(node.id)
             raise Unsupported("%s: global name %s used as a value" % (self.name, node.id))
+        if isinstance(node, ast.Attribute) and isinstance(node.value, ast.Name) and node.value.id == self.self_name \
+                and self.self_name is not None and isinstance(node.ctx, ast.Load):
+            return False, "(pyGetAttr e.%s %s)" % (fld(self.self_name), lean_str(node.attr))
         if isinstance(node, ast.UnaryOp) and isinstance(node.op, ast.USub):
             if isinstance(node.operand, ast.Constant) and isinstance(node.operand.value, int):
                 return True, "(.int (-%d))" % node.operand.value
@@ -517,7 +539,7 @@ class FunctionTranslator:
                 raise Unsupported("%s: keyword arguments to a method" % self.name)
             meth = {"zfill": ("pyZfill", 1), "join": ("pyJoin", 1), "index": ("pyIndexOf", 1),
                     "items": ("pyDictItems", 0), "keys": ("pyDictKeys", 0), "values": ("pyDictValues", 0),
-                    "tolist": ("npToList", 0)}
+                    "tolist": ("npToList", 0), "replace": ("pyReplace", 2), "upper": ("pyUpper", 0), "count": ("pyCount", 1)}
             if f.attr in meth and len(node.args) == meth[f.attr][1]:
                 return self.apply(meth[f.attr][0], [f.value] + node.args, scope, assigned)
             if isinstance(f.value, ast.Name) and f.value.id in self.params and self._is_object_param(f.value.id):
@@ -683,6 +705,11 @@ class FunctionTranslator:
                     return rest_fn(asg)
                 return self.store(target.elts[i], "(%s.getD %d .none)" % (items, i), asg, lambda a2: chain(i + 1, a2))
             return "bnd (pyUnpack %d %s) fun %s =>\n%s" % (n, value_term, items, chain(0, assigned))
+        if isinstance(target, ast.Attribute) and isinstance(target.value, ast.Name) and self.is_init \
+                and target.value.id == self.self_name:
+            v = self.tmp()
+            return "bnd (pySetAttr e.%s %s %s) fun %s =>\nlet e : Env := %s\n%s" % (
+                fld(self.self_name), lean_str(target.attr), value_term, v, self.assign_names([(self.self_name, v)]), rest_fn(assigned))
         two = None
         if isinstance(target, ast.Subscript) and isinstance(target.value, ast.Subscript) and \
                 isinstance(target.value.value, ast.Name) and not isinstance(target.slice, (ast.Slice, ast.Tuple)) and \
@@ -829,6 +856,19 @@ class FunctionTranslator:
                     return body, result_assigned["a"]
             if isinstance(c.func, ast.Name) and c.func.id == "print":
                 return self.block(rest, assigned, in_loop)      # console output: not modelled (like the monitor)
+            if (self.is_init and isinstance(c.func, ast.Attribute) and c.func.attr == "__init__"
+                    and isinstance(c.func.value, ast.Call) and isinstance(c.func.value.func, ast.Name)
+                    and c.func.value.func.id == "super" and not c.func.value.args and not c.func.value.keywords):
+                # super().__init__(...): the base class constructor continues building the same object
+                bases = self.cls.bases
+                if len(bases) != 1 or not isinstance(bases[0], ast.Name) or (bases[0].id, "__init__") not in self.m.methods:
+                    raise Unsupported("%s: base class constructor is not translated" % self.name)
+                callee = self.m.methods[(bases[0].id, "__init__")]
+                args = self.m.bind_args(callee, c, self.name, skip_self=True)
+                _, t = self.apply("%s.__init__ fuel e.%s" % (bases[0].id, fld(self.self_name)), args, {}, assigned)
+                v = self.tmp()
+                body = "bnd %s fun %s =>\nlet e : Env := %s\n%s" % (t, v, self.assign_names([(self.self_name, v)]), rest_fn(assigned))
+                return body, result_assigned["a"]
             raise Unsupported("%s: expression statement" % self.name)
         if isinstance(st, ast.Delete) and len(st.targets) == 1 and isinstance(st.targets[0], ast.Name) and \
                 st.targets[0].id in self.locals:
@@ -911,9 +951,13 @@ class FunctionTranslator:
         out += aux
         body = body.replace("let e : Env :=", "let e : %s.Env :=" % self.name)
         out.append("def %s.body (fuel : Nat) (e : %s.Env) : R (Flow %s.Env) :=\n%s\n" % (self.name, self.name, self.name, _indent(body)))
-        params = " ".join(self.params)
-        init = ", ".join("%s := %s" % (fld(p), p) for p in self.params)
-        out.append("def %s (fuel : Nat) (%s : PV) : RV :=\n  callResult (%s.body fuel { %s })\n" % (self.name, params, self.name, init))
+        params = " ".join(fld(p) for p in self.params)
+        init = ", ".join("%s := %s" % (fld(p), fld(p)) for p in self.params)
+        if self.is_init:
+            out.append("def %s (fuel : Nat) (%s : PV) : RV :=\n  initResult (%s.body fuel { %s }) (·.%s)\n" % (
+                self.name, params, self.name, init, fld(self.self_name)))
+        else:
+            out.append("def %s (fuel : Nat) (%s : PV) : RV :=\n  callResult (%s.body fuel { %s })\n" % (self.name, params, self.name, init))
         return "\n".join(out)
 
 
@@ -978,7 +1022,12 @@ class ModuleTranslator:
         self.order = []              # own translated functions, in source order
         self.skipped_functions = {}  # own functions outside the fragment -> reason
         self.wanted = wanted
-        self.monitor_classes = {n.name for n in self.tree.body if isinstance(n, ast.ClassDef)}
+        self.classes = [n for n in self.tree.body if isinstance(n, ast.ClassDef)]
+        # a class none of whose methods is translated is opaque (the progress monitor): see `is_monitor_local`
+        self.monitor_classes = {n.name for n in self.classes}
+        self.methods = {}            # (class, method) -> FunctionDef, translated methods only
+        self.method_order = []
+        self.skipped_class_reasons = {}
         self.numpy = {}              # local name -> NumPy name
         self.itertools = {}          # local name -> itertools name
         self.lean_imports = []
@@ -1027,8 +1076,10 @@ class ModuleTranslator:
                                     return False
         return ok
 
-    def bind_args(self, callee, call, caller):
+    def bind_args(self, callee, call, caller, skip_self=False):
         params = [a.arg for a in callee.args.args]
+        if skip_self:
+            params = params[1:]
         defaults = callee.args.defaults
         first_default = len(params) - len(defaults)
         slots = [None] * len(params)
@@ -1099,6 +1150,41 @@ class ModuleTranslator:
                 self.functions[node.name] = node
                 self.order.append(node.name)
                 chunks.append("/-! ### `%s` (source line %d) -/\n\n%s" % (node.name, node.lineno, text))
+        # classes: a class is translated when every method other than the display methods lies in the fragment
+        # (otherwise it stays opaque, like the progress monitor); base classes first (source order)
+        for cls in self.classes:
+            if self.wanted and cls.name not in self.wanted:
+                continue
+            texts, failed = [], None
+            for node in cls.body:
+                if not isinstance(node, ast.FunctionDef):
+                    continue
+                full = "%s.%s" % (cls.name, node.name)
+                if node.name in ("__str__", "__repr__"):
+                    self.skipped_functions[full] = "%s: display method" % full
+                    continue
+                try:
+                    if node.decorator_list:
+                        raise Unsupported("%s: decorators" % full)
+                    if any(not (isinstance(b, ast.Name) and (b.id == "object" or any(c.name == b.id for c in self.classes)))
+                           for b in cls.bases):
+                        raise Unsupported("%s: base class outside the module" % full)
+                    texts.append((node, FunctionTranslator(self, node, cls).translate()))
+                    self.methods[(cls.name, node.name)] = node       # visible to later methods / subclasses
+                except Unsupported as ex:
+                    failed = str(ex)
+                    break
+            if failed is not None or not texts:
+                for node, _ in texts:
+                    self.methods.pop((cls.name, node.name), None)
+                if failed is not None:
+                    self.skipped_class_reasons[cls.name] = failed
+                continue
+            for node, text in texts:
+                self.method_order.append((cls.name, node.name))
+                chunks.append("/-! ### `%s.%s` (source line %d) -/\n\n%s" % (cls.name, node.name, node.lineno, text))
+            skipped.remove(cls.name)
+            self.monitor_classes.discard(cls.name)
         return chunks, skipped
 
 
@@ -1127,6 +1213,14 @@ def dispatcher(mt, modname):
         n = len(mt.functions[nm].args.args)
         vs = ["a%d" % i for i in range(n)]
         lines.append("  | %s, [%s] => some (%s fuel %s)" % (lean_str(nm), ", ".join(vs), nm, " ".join(vs)))
+    for cn, mn in mt.method_order:
+        n = len(mt.methods[(cn, mn)].args.args)
+        if mn == "__init__":
+            vs = ["a%d" % i for i in range(n - 1)]
+            lines.append("  | %s, [%s] => some (%s.__init__ fuel (.dict [] []) %s)" % (lean_str(cn), ", ".join(vs), cn, " ".join(vs)))
+        else:
+            vs = ["a%d" % i for i in range(n)]
+            lines.append("  | %s, [%s] => some (%s.%s fuel %s)" % (lean_str("%s.%s" % (cn, mn)), ", ".join(vs), cn, mn, " ".join(vs)))
     lines.append("  | _, _ => Option.none")
     return "\n".join(lines)
 
@@ -1154,7 +1248,7 @@ def translate_source(source, basename, wanted=None):
     return text, mt.order
 
 
-def translate_package(repo, modules=("operation", "graphized", "spiderweb")):
+def translate_package(repo, modules=("operation", "graphized", "spiderweb", "biofilter")):
     """translate dsw/<m>.py for each m in order; later modules may call translated functions of earlier ones.
     returns {module: (text, ModuleTranslator)}."""
     import os
